@@ -154,6 +154,11 @@ def spec_group(D, dt, nsteps, inflow, mode, move=0.4, back=0.0, D2=None, start=2
         trans.append(["t01", "k0", "du0"])
         if mode == "direct":
             trans.append(["t00", "t01", "ra1"])
+        elif mode == "resjunction":
+            # a junction with a residual ('>') outflow inside the group: 40 % to t01, the remainder to t02 (all three flush with du0)
+            comps += [C("g0", kind="junction"), C("t02", 0.0)]
+            pars.append(P("pr0", "proportion", 0.4))
+            trans += [["t02", "k0", "du0"], ["t00", "g0", "ra1"], ["g0", "t01", "pr0"], ["g0", "t02", ">"]]
         else:
             comps.append(C("g0", kind="junction"))
             pars.append(P("pr0", "proportion", 1.0))
@@ -532,21 +537,24 @@ def check_group(ctx, case):
         ctx.violation(dict(ROWS_KEY) if kcls.startswith("float_dust") else {"api": "TimedCompartment.preallocate", "case": kcls},
                       f"duration group with duration {D!r}, dt={m0.dt!r}: {n_impl} rows allocated, specification {n}", replay)
         return
-    if mode in ("direct", "junction"):
+    if mode in ("direct", "junction", "resjunction"):
         out0 = link_vals(m0, "t00", "k0") + link_vals(m0, "t01", "k0")
         out1 = link_vals(m1, "t00", "k0") + link_vals(m1, "t01", "k0")
+        if mode == "resjunction":
+            out0 = out0 + link_vals(m0, "t02", "k0")
+            out1 = out1 + link_vals(m1, "t02", "k0")
         df = out1 - out0
         scale = max(1.0, abs(P_), float(np.max(np.abs(out1))))
         for t in range(T):
             expect = P_ if t == s + n else 0.0
             if abs(df[t] - expect) > 1e-9 * scale:
                 ctx.violation({"api": "TimedCompartment.update", "oracle": "group-impulse", "mode": mode, "when": "early" if t < s + n else ("at" if t == s + n else "late")},
-                              f"duration group (two compartments linked {'by a TimedLink' if mode == 'direct' else 'through a duration-group junction'}, n={n}): pulse of {P_!r} entering at step {s}; "
+                              f"duration group (compartments linked {'by a TimedLink' if mode == 'direct' else ('through a duration-group junction with a residual outflow' if mode == 'resjunction' else 'through a duration-group junction')}, n={n}): pulse of {P_!r} entering at step {s}; "
                               f"difference of the group's timed outflow at step {t} is {df[t]!r}, expected {expect!r} (moves inside the group must keep the elapsed time)", replay)
                 return
         # the move really happened (otherwise the oracle is vacuous)
         if n > 1 and s + 2 < T - 1:
-            moved = link_vals(m1, "t00", "g0" if mode == "junction" else "t01") - link_vals(m0, "t00", "g0" if mode == "junction" else "t01")
+            moved = link_vals(m1, "t00", "g0" if mode in ("junction", "resjunction") else "t01") - link_vals(m0, "t00", "g0" if mode in ("junction", "resjunction") else "t01")
             if np.max(np.abs(moved)) > 0:
                 ctx.count("group.moved_nonzero")
     else:
@@ -570,7 +578,7 @@ def run_groups(ctx, n):
     r = ctx.rng
     for i in range(n):
         rr = _random.Random(r.randrange(1 << 30))
-        mode = ["direct", "junction", "restart"][i % 3]
+        mode = ["direct", "junction", "restart", "resjunction"][i % 4]
         dt = rr.choice([1.0, 0.5, 0.25, 0.2, 0.1, 1 / 12, 0.3])
         k = rr.choice([2, 3, 3, 4, 5, 6])
         D = rr.choice([k * dt, (k - 0.5) * dt, k * dt])
